@@ -133,8 +133,15 @@ Modified == {[w EXCEPT !.kindword = kw, !.comment = c] :
                       Always("normal", "", ""), W("normal", <<>>, <<>>, <<>>, <<>>, <<>>, "", "")},
                kw \in KindWords, c \in Comments}
             \ {W("normal", <<>>, <<>>, <<>>, <<>>, <<>>, "", "")}
+\* both comment positions of a rule: in front of the selectors and after the modifier
+WithLead(w, lead, first) == w @@ [lead |-> lead, leadFirst |-> first]
+Leads == {WithLead([W("normal", <<>>, <<>>, <<>>, d, t, kw, "") EXCEPT !.comment = cm.c], "by appointment", cm.first) :
+             d \in {D1, <<>>}, t \in {T1, <<>>}, kw \in {"", "open", "unknown", "closed"},
+             cm \in {[c |-> "", first |-> TRUE], [c |-> "ring the bell", first |-> TRUE], [c |-> "a", first |-> FALSE],
+                     [c |-> "by appointment", first |-> TRUE]}}
+         \ {w \in {WithLead(W("normal", <<>>, <<>>, <<>>, <<>>, <<>>, kw, ""), "by appointment", TRUE) : kw \in {"", "open", "unknown", "closed"}} : TRUE}
 Edge == {W("normal", <<>>, m, <<>>, <<>>, <<>>, "", "") : m \in LeapFamily}
-SingleRules == Alone \cup Pairs \cup Triples \cup Modified \cup YearDates
+SingleRules == Alone \cup Pairs \cup Triples \cup Modified \cup YearDates \cup {w \in Leads : w.weekday # <<>> \/ w.written_time}
 
 Base == {W("normal", <<>>, <<>>, <<>>, D1, T1, "", ""),
          W("normal", <<>>, <<>>, <<>>, <<PH(0)>>, <<>>, "closed", ""),
